@@ -7,6 +7,7 @@
 
 mod crash;
 mod driver;
+mod images;
 mod model;
 mod ops;
 mod props;
